@@ -22,7 +22,7 @@ from bind import c15
 
 PROP = "C02"
 
-MAIN_GROUPS = ["core", "nest", "blocks", "methods", "decos", "attrs", "core2", "defnames", "targets", "comp", "calls", "decoys", "modules"]
+MAIN_GROUPS = ["core", "nest", "blocks", "methods", "decos", "attrs", "newattrs", "core2", "defnames", "targets", "comp", "calls", "decoys", "modules"]
 FEATURE_GROUPS = ["params", "stmts", "walrus", "lambda"]
 
 _ROOT = None
